@@ -813,9 +813,9 @@ class Extractor:
                     while b_ >= 0 and ftoks[b_].kind in ('ws', 'comment'): b_ -= 1
                     in_tail = b_ >= 0 and ftoks[b_].text in ('{', ';', '}') and (b_ == fn_open or ftoks[b_].text in (';', '}'))
                 if has_try and h['is_result'] and not h['other_return']:
-                    rep = '{ %slet __r14_%d_r = crate::vp::r14_res({%s}); __r14_%d_r? }' % (lets, K, body, K); end = a + 1
+                    rep = '({ %slet __r14_%d_r = crate::vp::r14_res({%s}); __r14_%d_r? })' % (lets, K, body, K); end = a + 1      # parenthesised: a block at statement start followed by an operator would end the statement
                 elif not has_try and not h['has_q'] and not h['has_ret']:
-                    rep = '{ %s{%s} }' % (lets, body); end = pc + 1
+                    rep = '({ %s{%s} })' % (lets, body); end = pc + 1
                 elif in_tail:
                     # returning from the helper IS returning from the caller here, so `?` and `return` keep their meaning
                     rep = '{ %s%s }' % (lets, body); end = pc + 1
@@ -1458,6 +1458,12 @@ class Extractor:
             chunks.append(('raw', None, 'pub mod %s {\nuse vstd::prelude::*;\nuse vstd::std_specs::iter::IteratorSpec;\nuse crate::vp::*;\nbroadcast use {%s};\n' % (m, ', '.join(bu))))
             for k_ in ('top', 'bottom'):
                 if mspec.get(k_): mspec[k_] = mspec[k_].replace('${TARGET_IS_LITTLE}', 'true' if self.target_endian == 'little' else 'false')
+            # import repair: the spliced contract text of this module names an item that the module imported at the pinned commit
+            # and the edited source no longer imports (rustc's own suggestion, taken from its diagnostic, see check.py)
+            fixes = sorted(k[1] for k in self.force_external if k[0] == m and k[1].startswith('use '))
+            if fixes:
+                chunks.append(('raw', None, g(' '.join(u + ';' for u in fixes)) + '\n'))
+                self.dropped.append('%s: import repair for the contract text: %s' % (m, '; '.join(fixes)))
             if mspec.get('top'):
                 chunks.append(('raw', None, g(mspec['top']) + '\n'))
             chunks.extend(body)
